@@ -16,7 +16,7 @@ TRUSTED = ['Lean 4.33 kernel + Mathlib v4.33 (axioms: propext, Classical.choice,
            'harness/c14.py: enumeration of operand-reachable / result-exposed ndarrays (attributes TM, TAA, data and returned arrays), np.shares_memory']
 ASSUMPTIONS = ['excluded by the property: index/slice access, frame/position metadata objects of screws and wrenches, Screw->Wrench conversion, documented in-place functions']
 RULE = ('every operation of the scope table x operand draws (poses from pose classes, random data) ; distinct = distinct (operation, operands); non-trivial = operand payload non-zero')
-SAMPLED = ['Arm constructor clause is exercised once an Arm can be constructed (see C05)']
+SAMPLED = ['robot constructors leave the arrays they are given unaltered (at construction and through a short history of use): observed on real Arm / SP objects, no theorem']
 
 
 def libs():
@@ -220,7 +220,56 @@ def run(res, tier, seed, driver_ok):
                 res.violations.append({'key': 'mutates:mr.%s' % name, 'what': 'MR function %s alters an array argument' % name, 'input': {'function': name}, 'observed': 'argument bytes changed'})
                 if 'mr.function' in pred and pred['mr.function'][0] == 0:
                     res.mismatches.append({'op': 'mr.' + name, 'model_predicts': [0, 0], 'observed': [1, 0]})
-    res.stats.update({'operations': len(names), 'draws': draws, 'mr_functions_checked': len(nfun), 'predictions': len(pred)})
+    # ---- arrays handed to the robot constructors stay unaltered, at construction and through a short history of use
+    #      (the constructors keep references to some of them: any later in-place update would write into the caller's array)
+    import armh, sph
+    from basic_robotics.kinematics import Arm, SP
+    nrobots = 0
+    for d in range(30 if thorough else 3):
+        S, M, homes, axes = armh.six_r() if d % 2 == 0 else armh.random_chain(rnd, rnd.randint(2, 7))
+        ops_ = {'screw_list': np.array(S, dtype=float), 'joint_poses_home': np.array(homes, dtype=float), 'joint_axes': np.array(axes, dtype=float)}
+        fp = {k: v.tobytes() for k, v in ops_.items()}
+        res.evaluations += 1
+        try:
+            with contextlib.redirect_stdout(io.StringIO()):
+                arm = Arm(libs()[0]([rnd.uniform(-1, 1) for _ in range(6)]), ops_['screw_list'], libs()[0](M.copy()), ops_['joint_poses_home'], ops_['joint_axes'])
+                n_ = arm.num_dof
+                stage = 'constructor'
+                bad_ = [k for k, v in ops_.items() if v.tobytes() != fp[k]]
+                if not bad_:
+                    stage = 'history'
+                    th = np.array([rnd.uniform(-1, 1) for _ in range(n_)])
+                    arm.FK(th.copy()); arm.move(libs()[0]([rnd.uniform(-1, 1) for _ in range(6)])); arm.FK(th.copy() * 0.5)
+                    arm.setArbitraryHome(arm.getEEPos() @ libs()[0]([0.1, 0, 0.2, 0, 0.1, 0])); arm.restoreOriginalEE()
+                    arm.jacobian(th.copy()); arm.jacobianBody(th.copy()); arm.IK(arm.FK(th.copy()), theta_init=th + 0.01)
+                    bad_ = [k for k, v in ops_.items() if v.tobytes() != fp[k]]
+            nrobots += 1
+            for k in bad_:
+                res.violations.append({'key': 'robot-ctor-altered:arm:%s:%s' % (k, stage), 'what': 'an array handed to the Arm constructor was altered (%s)' % stage, 'input': {'argument': k, 'joints': n_}, 'observed': 'argument bytes changed'})
+        except Exception as e:
+            res.violations.append({'key': 'raises:arm.ctor:%s' % type(e).__name__, 'what': 'Arm constructor / use raised %r' % (e,), 'input': {'draw': d}})
+        g_ = sph.geometry(rnd)
+        bj = np.array([[g_['rb'] * math.cos(k), g_['rb'] * math.sin(k), g_['bth']] for k in np.linspace(0, 5.2, 6)]).T.copy()
+        tj = np.array([[g_['rt'] * math.cos(k + 0.3), g_['rt'] * math.sin(k + 0.3), -g_['tth']] for k in np.linspace(0, 5.2, 6)]).T.copy()
+        fpb, fpt = bj.tobytes(), tj.tobytes()
+        res.evaluations += 1
+        try:
+            with contextlib.redirect_stdout(io.StringIO()):
+                hgt = 1.2 * g_['rb']
+                sp = SP(bj, tj, libs()[0](), libs()[0]([0, 0, hgt, 0, 0, 0]), 0.5 * hgt, 2.5 * hgt, g_['bth'], g_['tth'], 'sp')
+                stage = 'constructor'
+                alt = bj.tobytes() != fpb or tj.tobytes() != fpt
+                if not alt:
+                    stage = 'history'
+                    sp.IK(libs()[0]([0.05 * hgt, 0, hgt * 1.05, 0.05, 0, 0.1])); sp.FK(np.array(sp.getLens()).reshape(-1).copy()); sp.move(libs()[0]([1, 2, 3, 0.1, 0.2, 0.3])); sp.spinCustom(0.4)
+                    sp.inverseJacobian()
+                    alt = bj.tobytes() != fpb or tj.tobytes() != fpt
+            nrobots += 1
+            if alt:
+                res.violations.append({'key': 'robot-ctor-altered:sp:%s' % stage, 'what': 'a joint table handed to the SP constructor was altered (%s)' % stage, 'input': {'draw': d}, 'observed': 'argument bytes changed'})
+        except Exception as e:
+            res.violations.append({'key': 'raises:sp.ctor:%s' % type(e).__name__, 'what': 'SP constructor / use raised %r' % (e,), 'input': {'draw': d}})
+    res.stats.update({'operations': len(names), 'draws': draws, 'mr_functions_checked': len(nfun), 'predictions': len(pred), 'robots_constructed_and_used': nrobots})
     res.sample({'op': 'tm.matmul', 'observed': [0, 0]}); res.sample({'ops': names[:12]})
 
 
